@@ -39,7 +39,7 @@ func rangeOf(pairs []kv, start, end []byte, asc, incl bool) []kv {
 func sameBound(a, b []byte) bool { return bytes.Equal(a, b) } // nil and empty are not distinguished
 
 // drain walks an iterator and checks the contract of store.Iterator.
-func (e *Executor) drain(i int, op, what string, itr corestore.Iterator, start, end []byte, want []kv) *Violation {
+func (e *Executor) drain(i int, op, what string, itr corestore.Iterator, start, end []byte, want []kv, indexed bool) *Violation {
 	ds, de := itr.Domain()
 	if !sameBound(ds, start) || !sameBound(de, end) {
 		return viol("iter", i, op, what+" Domain()", fmt.Sprint(hx(start), ",", hx(end)), fmt.Sprint(hx(ds), ",", hx(de)))
@@ -55,7 +55,11 @@ func (e *Executor) drain(i int, op, what string, itr corestore.Iterator, start, 
 		}
 	}
 	if msg := diffPairs(want, got); msg != "" {
-		return viol("iter", i, op, what+" sequence", fmtPairs(want), fmtPairs(got))
+		v := viol("iter", i, op, what+" sequence", fmtPairs(want), fmtPairs(got))
+		if !e.staleIndex() || !indexed {
+			return v
+		}
+		e.known("F-C07a", v)
 	}
 	if itr.Valid() || itr.Valid() {
 		return viol("iter", i, op, what+" Valid() after exhaustion", false, true)
@@ -105,12 +109,12 @@ func (e *Executor) iterTriple(i int, op, what string, it *iavl.ImmutableTree, mt
 		if err != nil {
 			return viol("iter", i, op, tag+" ImmutableTree.Iterator", "ok", err)
 		}
-		if v := e.drain(i, op, tag+" ImmutableTree.Iterator", itr, start, end, want); v != nil {
+		if v := e.drain(i, op, tag+" ImmutableTree.Iterator", itr, start, end, want, true); v != nil {
 			return v
 		}
 	}
 	// 2. the tree-walk iterator
-	if v := e.drain(i, op, tag+" NewIterator(tree walk)", iavl.NewIterator(start, end, asc, it), start, end, want); v != nil {
+	if v := e.drain(i, op, tag+" NewIterator(tree walk)", iavl.NewIterator(start, end, asc, it), start, end, want, false); v != nil {
 		return v
 	}
 	// 3. the mutable tree's iterator (index + uncommitted changes when the index is on)
@@ -119,7 +123,7 @@ func (e *Executor) iterTriple(i int, op, what string, it *iavl.ImmutableTree, mt
 		if err != nil {
 			return viol("iter", i, op, tag+" MutableTree.Iterator", "ok", err)
 		}
-		if v := e.drain(i, op, tag+" MutableTree.Iterator", itr, start, end, want); v != nil {
+		if v := e.drain(i, op, tag+" MutableTree.Iterator", itr, start, end, want, true); v != nil {
 			return v
 		}
 	}
@@ -223,7 +227,11 @@ func (e *Executor) SweepIter(i int, op string, full bool) *Violation {
 			exp = wpairs[:stop+1]
 		}
 		if err != nil || stopped != (stop >= 0) || diffPairs(exp, got) != "" {
-			return viol("iter", i, op, fmt.Sprintf("working Iterate stop at %d", stop), fmt.Sprint(stop >= 0, " ", fmtPairs(exp)), fmt.Sprint(stopped, " ", fmtPairs(got), err))
+			v := viol("iter", i, op, fmt.Sprintf("working Iterate stop at %d", stop), fmt.Sprint(stop >= 0, " ", fmtPairs(exp)), fmt.Sprint(stopped, " ", fmtPairs(got), err))
+			if err != nil || !e.staleIndex() {
+				return v
+			}
+			e.known("F-C07a", v)
 		}
 		e.obs(1)
 	}
